@@ -19,6 +19,7 @@ static const struct { const char * p; size_t n; } msgs[] = {
     MSG("OPT 5  \n"), MSG("DBL? 1.5e3\n"), MSG("*XY?;:AAAA:Cc12\n"), MSG("Q1?\r"),
     MSG("IB 7,#15a\n;b\n\n"),                       /* block with embedded NL and ; as SECOND parameter */
     MSG("BLK #16\x01\x00\x02\x00\n\x00\n"),     /* NUL bytes (and a NL) inside a block */
+    MSG("ZZ:YX 5\r\n"),                           /* undefined header terminated by CR LF: its text must not depend on where the CR LF is cut */
     MSG("TXT 'abc'\n"), MSG("TXT 'ab\n"),        /* single-quoted string, and one whose closing quote is missing */
 };
 #define NMSG ((int) (sizeof msgs / sizeof msgs[0]))
